@@ -6,6 +6,32 @@ import os
 ROOT = os.path.dirname(os.path.dirname(os.path.abspath(__file__)))
 
 CHECKS = {
+    "C17": {
+        "text": "Proof (Coq, closed under the global context) on a model of splitter(): for every maximum m >= 1, every "
+                "fragmentation of the stream into payload blocks and a receiver that stays, the bodies the provider sees are "
+                "exactly (offset, bytes) = from_off 0 (chunks m stream) followed by the finalisation with total and checksum; "
+                "an upstream error replaces the finalisation (same bodies, no finalisation anywhere); a sender hang-up fails "
+                "without either; in every run at most one terminal event and nothing after it; a send to a receiver that went "
+                "away fails the run. Tied to the code by running the real split() (threads, rendezvous channels, scripted "
+                "producer/consumer, jitter) and the extracted model on an exhaustive small universe.",
+        "note": "Trusted: Coq kernel, extraction + driver, harness. Modelled, not verified: std::sync::mpsc semantics (a send "
+                "succeeds iff the receiver exists); real thread interleavings are only sampled by jitter. The data half for "
+                "max = unlimited is covered by the correspondence run and by terminal_once_and_last, not yet by a bodies theorem.",
+        "technique": "Coq proof (invariant over the message list, chunks as specification) + exhaustive differential correspondence",
+        "design": "7/C17",
+    },
+    "C15": {
+        "text": "Proof (Coq, closed under the global context): FileReader over an arbitrary underlying reader (any short reads, "
+                "early EOF, data after EOF) always yields exactly the declared size, real bytes then zeros, with count and digest "
+                "of the real bytes; add_file over a file changing at any read yields a record whose size and hash describe the "
+                "first `size` bytes of the entry (unique) or bytes already stored in the group (extern), or aborts. Tied to the "
+                "code by running the real FileReader over scripted readers against the extracted model (exhaustive small universe).",
+        "note": "Partial: the scheduled concurrent-writer runs against the real binary (truncate/append/unlink/replace at a chosen "
+                "system call) are not built yet; vanish/type-change handling lives in the walker model. Trusted: Coq kernel, "
+                "extraction + driver, harness, sha2/hashlib.",
+        "technique": "Coq proof (invariant over read calls with an oracle reader) + exhaustive differential correspondence",
+        "design": "7/C15",
+    },
     "C18": {
         "text": "Proof (Coq, closed under the global context): for every digest function, block size >= 1 and every "
                 "sequence of write calls the chunked hasher's result is H(concat(map H (consecutive blocks))), the blocks "
